@@ -343,7 +343,10 @@ pub fn evaluate(prop: &str, sc: &Scenario) -> Eval {
             // a hard error at every destination call in turn
             let stride = if std::env::var("VERIF_TIER").map(|t| t == "thorough").unwrap_or(false) { 1 } else { 3 };
             let mut k = (sc.seed % stride as u64) as u32;
-            while k < nops {
+            // (the two worlds that move gigabytes are checked at every boundary of their fault-free run
+            // only: each further run costs seconds)
+            let big = sc.tags.iter().any(|t| t.starts_with("over-"));
+            while k < nops && !big {
                 let mut f = sc.clone();
                 if let Workload::Dump(p) = &mut f.workload {
                     p.dests[0].fx.retain(|(o, _)| *o != k);
